@@ -11,6 +11,13 @@
 // FAIL CLOSED: a builder whose node name is not a literal is listed in `tickDynamic` (no order claim is made for
 // it); a builder method called with a non-literal property name, or a Build without any Pipe/At call, is put in
 // `tickUnknown` (theorem `tick_no_unknown` stops checking).
+//
+// VALUES (depth round 5): every Build body is also translated, statement by statement, into the little builder
+// language of lean/Kap/Model/C13Tick.lean (`tickBuild`): builder calls with their argument EXPRESSIONS (fields of
+// the pipeline node, the helpers args / largs / dimensions, n.Parents[1:], an octal NumberNode literal), `for`
+// loops over slices, the sorted-map-keys idiom, `if` on a flag / len(x) > 0 / x == 0 / x != 0. FAIL CLOSED: any
+// statement, condition or expression of another shape becomes `.unknown "<what>"`, which the model interpreter
+// refuses to execute (the node is then reported as not covered, never rendered by a default).
 // Env: VERIF_REPO (default /repo), VERIF_LEAN (default /verif/lean).
 package main
 
@@ -40,6 +47,344 @@ func leanStr(s string) string { return strconv.Quote(s) }
 
 type entry struct{ method, name string }
 
+// ---------------------------------------------------------------------------------------------
+// value level: Build bodies -> builder language
+
+var helpers = map[string]bool{"args": true, "largs": true, "dimensions": true}
+
+type xl struct {
+	recv    string
+	bound   map[string]bool
+	keysOf  map[string]string // local -> Lean term of the map whose keys it collects (until sort.Strings)
+	pending map[string]bool   // declared locals not yet bound
+}
+
+func unk(what string) string { return "(.unknown " + leanStr(what) + ")" }
+
+func (x *xl) expr(e ast.Expr) string {
+	switch v := e.(type) {
+	case *ast.ParenExpr:
+		return x.expr(v.X)
+	case *ast.Ident:
+		if x.bound[v.Name] {
+			return "(.var " + leanStr(v.Name) + ")"
+		}
+		return unk("identifier " + v.Name)
+	case *ast.SelectorExpr:
+		if id, ok := v.X.(*ast.Ident); ok && id.Name == x.recv {
+			return unk("builder field " + v.Sel.Name)
+		}
+		return "(.sel " + x.expr(v.X) + " " + leanStr(v.Sel.Name) + ")"
+	case *ast.IndexExpr:
+		return "(.index " + x.expr(v.X) + " " + x.expr(v.Index) + ")"
+	case *ast.SliceExpr:
+		// n.Parents[1:]
+		if sel, ok := v.X.(*ast.SelectorExpr); ok && v.High == nil && v.Max == nil {
+			if id, ok := sel.X.(*ast.Ident); ok && id.Name == x.recv && sel.Sel.Name == "Parents" {
+				if bl, ok := v.Low.(*ast.BasicLit); ok && bl.Value == "1" {
+					return ".parentsTail"
+				}
+			}
+		}
+		return unk("slice expression")
+	case *ast.CallExpr:
+		if id, ok := v.Fun.(*ast.Ident); ok && len(v.Args) == 1 && helpers[id.Name] && !v.Ellipsis.IsValid() {
+			return "(.helper " + leanStr(id.Name) + " " + x.expr(v.Args[0]) + ")"
+		}
+		return unk("call")
+	case *ast.UnaryExpr:
+		// &ast.NumberNode{IsInt: true, Int64: E, Base: 8}
+		if cl, ok := v.X.(*ast.CompositeLit); ok && v.Op == token.AND {
+			if sel, ok := cl.Type.(*ast.SelectorExpr); ok && sel.Sel.Name == "NumberNode" && len(cl.Elts) == 3 {
+				var val ast.Expr
+				okShape := true
+				for _, el := range cl.Elts {
+					kv, ok := el.(*ast.KeyValueExpr)
+					if !ok {
+						okShape = false
+						break
+					}
+					k, _ := kv.Key.(*ast.Ident)
+					switch {
+					case k != nil && k.Name == "IsInt":
+						if id, ok := kv.Value.(*ast.Ident); !ok || id.Name != "true" {
+							okShape = false
+						}
+					case k != nil && k.Name == "Base":
+						if bl, ok := kv.Value.(*ast.BasicLit); !ok || bl.Value != "8" {
+							okShape = false
+						}
+					case k != nil && k.Name == "Int64":
+						val = kv.Value
+					default:
+						okShape = false
+					}
+				}
+				if okShape && val != nil {
+					return "(.octal " + x.expr(val) + ")"
+				}
+			}
+		}
+		return unk("unary expression")
+	}
+	return unk(fmt.Sprintf("expression %T", e))
+}
+
+func (x *xl) cond(e ast.Expr) string {
+	switch v := e.(type) {
+	case *ast.ParenExpr:
+		return x.cond(v.X)
+	case *ast.Ident, *ast.SelectorExpr:
+		return "(.flag " + x.expr(e) + ")"
+	case *ast.BinaryExpr:
+		isLit := func(e ast.Expr, s string) bool { bl, ok := e.(*ast.BasicLit); return ok && bl.Value == s }
+		if call, ok := v.X.(*ast.CallExpr); ok {
+			if id, ok := call.Fun.(*ast.Ident); ok && id.Name == "len" && len(call.Args) == 1 && isLit(v.Y, "0") &&
+				(v.Op == token.GTR || v.Op == token.NEQ) {
+				return "(.lenPos " + x.expr(call.Args[0]) + ")"
+			}
+			return ".unknown"
+		}
+		if isLit(v.Y, "0") || isLit(v.Y, `""`) {
+			switch v.Op {
+			case token.EQL:
+				return "(.isZero " + x.expr(v.X) + ")"
+			case token.NEQ:
+				return "(.nonZero " + x.expr(v.X) + ")"
+			}
+		}
+	}
+	return ".unknown"
+}
+
+// builder call chain rooted at the receiver, in evaluation order
+func (x *xl) chain(e ast.Expr, out *[]string) bool {
+	call, ok := e.(*ast.CallExpr)
+	if !ok {
+		id, ok := e.(*ast.Ident)
+		return ok && id.Name == x.recv
+	}
+	sel, ok := call.Fun.(*ast.SelectorExpr)
+	if !ok || !builder[sel.Sel.Name] {
+		return false
+	}
+	if !x.chain(sel.X, out) {
+		return false
+	}
+	if len(call.Args) == 0 {
+		*out = append(*out, unk("builder call without a name"))
+		return true
+	}
+	bl, ok := call.Args[0].(*ast.BasicLit)
+	if !ok || bl.Kind != token.STRING {
+		*out = append(*out, unk("builder call "+sel.Sel.Name+" with a computed name"))
+		return true
+	}
+	name, _ := strconv.Unquote(bl.Value)
+	var as []string
+	for i, a := range call.Args[1:] {
+		spread := "false"
+		if call.Ellipsis.IsValid() && i == len(call.Args)-2 {
+			spread = "true"
+		}
+		as = append(as, "("+x.expr(a)+", "+spread+")")
+	}
+	*out = append(*out, "(.call "+leanStr(sel.Sel.Name)+" "+leanStr(name)+" ["+strings.Join(as, ", ")+"])")
+	return true
+}
+
+func isBlank(e ast.Expr) bool {
+	if e == nil {
+		return true
+	}
+	id, ok := e.(*ast.Ident)
+	return ok && id.Name == "_"
+}
+
+func identName(e ast.Expr) string {
+	if id, ok := e.(*ast.Ident); ok {
+		return id.Name
+	}
+	return ""
+}
+
+// `dst = append(dst, v)`
+func appendOf(st ast.Stmt) (dst, v string) {
+	as, ok := st.(*ast.AssignStmt)
+	if !ok || len(as.Lhs) != 1 || len(as.Rhs) != 1 || as.Tok != token.ASSIGN {
+		return "", ""
+	}
+	call, ok := as.Rhs[0].(*ast.CallExpr)
+	if !ok || identName(call.Fun) != "append" || len(call.Args) != 2 || call.Ellipsis.IsValid() {
+		return "", ""
+	}
+	if identName(as.Lhs[0]) == "" || identName(as.Lhs[0]) != identName(call.Args[0]) {
+		return "", ""
+	}
+	return identName(as.Lhs[0]), identName(call.Args[1])
+}
+
+// `dst[i] = v`
+func indexAssignOf(st ast.Stmt) (dst, i, v string) {
+	as, ok := st.(*ast.AssignStmt)
+	if !ok || len(as.Lhs) != 1 || len(as.Rhs) != 1 || as.Tok != token.ASSIGN {
+		return "", "", ""
+	}
+	ix, ok := as.Lhs[0].(*ast.IndexExpr)
+	if !ok {
+		return "", "", ""
+	}
+	return identName(ix.X), identName(ix.Index), identName(as.Rhs[0])
+}
+
+func (x *xl) block(list []ast.Stmt) []string {
+	var out []string
+	for _, st := range list {
+		out = append(out, x.stmt(st)...)
+	}
+	return out
+}
+
+func emptyInit(e ast.Expr) bool {
+	switch v := e.(type) {
+	case *ast.CallExpr:
+		return identName(v.Fun) == "make"
+	case *ast.CompositeLit:
+		return len(v.Elts) == 0
+	}
+	return false
+}
+
+func (x *xl) stmt(st ast.Stmt) []string {
+	switch v := st.(type) {
+	case *ast.ReturnStmt:
+		if len(v.Results) == 2 {
+			a, ok1 := v.Results[0].(*ast.SelectorExpr)
+			b, ok2 := v.Results[1].(*ast.SelectorExpr)
+			if ok1 && ok2 && identName(a.X) == x.recv && a.Sel.Name == "prev" && identName(b.X) == x.recv && b.Sel.Name == "err" {
+				return nil
+			}
+		}
+		return []string{unk("return")}
+	case *ast.DeclStmt:
+		if gd, ok := v.Decl.(*ast.GenDecl); ok && gd.Tok == token.VAR {
+			for _, sp := range gd.Specs {
+				vs, ok := sp.(*ast.ValueSpec)
+				if !ok || len(vs.Values) != 0 {
+					return []string{unk("var with a value")}
+				}
+				for _, n := range vs.Names {
+					x.pending[n.Name] = true
+				}
+			}
+			return nil
+		}
+		return []string{unk("declaration")}
+	case *ast.AssignStmt:
+		if v.Tok == token.DEFINE && len(v.Lhs) == 1 && len(v.Rhs) == 1 && identName(v.Lhs[0]) != "" {
+			name := identName(v.Lhs[0])
+			if emptyInit(v.Rhs[0]) {
+				x.pending[name] = true
+				return nil
+			}
+			if _, ok := v.Rhs[0].(*ast.UnaryExpr); ok {
+				t := x.expr(v.Rhs[0])
+				x.bound[name] = true
+				return []string{"(.bind " + leanStr(name) + " " + t + ")"}
+			}
+		}
+		return []string{unk("assignment")}
+	case *ast.ExprStmt:
+		if call, ok := v.X.(*ast.CallExpr); ok {
+			if sel, ok := call.Fun.(*ast.SelectorExpr); ok && identName(sel.X) == "sort" && sel.Sel.Name == "Strings" && len(call.Args) == 1 {
+				loc := identName(call.Args[0])
+				if m, ok := x.keysOf[loc]; ok {
+					delete(x.keysOf, loc)
+					x.bound[loc] = true
+					return []string{"(.sortedKeys " + leanStr(loc) + " " + m + ")"}
+				}
+				return []string{unk("sort.Strings of something else")}
+			}
+		}
+		var out []string
+		if x.chain(v.X, &out) {
+			return out
+		}
+		return []string{unk("expression statement")}
+	case *ast.IfStmt:
+		if v.Init != nil {
+			return []string{unk("if with init")}
+		}
+		c := x.cond(v.Cond)
+		thn := x.block(v.Body.List)
+		var els []string
+		switch e := v.Else.(type) {
+		case nil:
+		case *ast.BlockStmt:
+			els = x.block(e.List)
+		default:
+			els = x.stmt(e)
+		}
+		return []string{"(.ifElse " + c + " [" + strings.Join(thn, ", ") + "] [" + strings.Join(els, ", ") + "])"}
+	case *ast.RangeStmt:
+		if v.Tok != token.DEFINE {
+			return []string{unk("range without :=")}
+		}
+		key, val := identName(v.Key), identName(v.Value)
+		if len(v.Body.List) == 1 {
+			// keys of a map, collected for sort.Strings
+			if dst, src := appendOf(v.Body.List[0]); dst != "" && v.Value == nil && key != "" && key != "_" && src == key && x.pending[dst] {
+				x.keysOf[dst] = x.expr(v.X)
+				return nil
+			}
+			// elements copied into a []interface{}
+			if dst, src := appendOf(v.Body.List[0]); dst != "" && isBlank(v.Key) && val != "" && src == val && x.pending[dst] {
+				x.bound[dst] = true
+				return []string{"(.collect " + leanStr(dst) + " " + x.expr(v.X) + ")"}
+			}
+			if dst, i, src := indexAssignOf(v.Body.List[0]); dst != "" && key != "" && key != "_" && i == key && val != "" && src == val && x.pending[dst] {
+				x.bound[dst] = true
+				return []string{"(.collect " + leanStr(dst) + " " + x.expr(v.X) + ")"}
+			}
+		}
+		if isBlank(v.Key) && val != "" && val != "_" {
+			over := x.expr(v.X)
+			was := x.bound[val]
+			x.bound[val] = true
+			body := x.block(v.Body.List)
+			x.bound[val] = was
+			return []string{"(.forEach " + leanStr(val) + " " + over + " [" + strings.Join(body, ", ") + "])"}
+		}
+		return []string{unk("range shape")}
+	}
+	return []string{unk(fmt.Sprintf("statement %T", st))}
+}
+
+// translate one Build method: (pipeline type of the parameter, parameter name, statements)
+func translateBuild(fd *ast.FuncDecl) (string, string, []string, bool) {
+	if fd.Recv == nil || len(fd.Recv.List) != 1 || len(fd.Recv.List[0].Names) != 1 {
+		return "", "", nil, false
+	}
+	if fd.Type.Params == nil || len(fd.Type.Params.List) != 1 || len(fd.Type.Params.List[0].Names) != 1 {
+		return "", "", nil, false
+	}
+	pt, ok := fd.Type.Params.List[0].Type.(*ast.StarExpr)
+	if !ok {
+		return "", "", nil, false
+	}
+	sel, ok := pt.X.(*ast.SelectorExpr)
+	if !ok || identName(sel.X) != "pipeline" {
+		return "", "", nil, false
+	}
+	param := fd.Type.Params.List[0].Names[0].Name
+	x := &xl{recv: fd.Recv.List[0].Names[0].Name, bound: map[string]bool{param: true}, keysOf: map[string]string{}, pending: map[string]bool{}}
+	body := x.block(fd.Body.List)
+	for loc := range x.keysOf {
+		body = append(body, unk("keys of a map collected in "+loc+" but never sorted"))
+	}
+	return sel.Sel.Name, param, body, true
+}
+
 func main() {
 	repo := env("VERIF_REPO", "/repo")
 	lean := env("VERIF_LEAN", "/verif/lean")
@@ -48,6 +393,11 @@ func main() {
 	sort.Strings(files)
 	table := map[string][]entry{}
 	var names, dynamic, unknown []string
+	type build struct {
+		typ, param string
+		body       []string
+	}
+	var builds []build
 	for _, fn := range files {
 		if strings.HasSuffix(fn, "_test.go") {
 			continue
@@ -70,6 +420,9 @@ func main() {
 			}
 			if recv == "AST" {
 				continue
+			}
+			if typ, param, body, ok := translateBuild(fd); ok {
+				builds = append(builds, build{typ, param, body})
 			}
 			var es []entry
 			var localUnknown []string
@@ -134,7 +487,7 @@ func main() {
 	sort.Strings(names)
 	sort.Strings(dynamic)
 	var b strings.Builder
-	b.WriteString("/- GENERATED by /verif/extract/c13tick from pipeline/tick/*.go. Do not edit. -/\nnamespace Kap.C13.Gen\n\n")
+	b.WriteString("/- GENERATED by /verif/extract/c13tick from pipeline/tick/*.go. Do not edit. -/\nimport Kap.Model.C13TickLang\nnamespace Kap.C13.Gen\nopen Kap.C13.Tick (BExpr BCond BStmt)\n\n")
 	b.WriteString("/-- node kind ↦ the builder calls of its `Build` method in evaluation order: (method, property) -/\n")
 	b.WriteString("def tickTable : List (String × List (String × String)) := [\n")
 	for i, n := range names {
@@ -164,6 +517,17 @@ func main() {
 			b.WriteString(", ")
 		}
 		b.WriteString(leanStr(n))
+	}
+	b.WriteString("]\n\n")
+	sort.Slice(builds, func(i, j int) bool { return builds[i].typ < builds[j].typ })
+	b.WriteString("/-- pipeline node type ↦ (parameter name, body of its `Build` method in the builder language of Kap/Model/C13Tick.lean) -/\n")
+	b.WriteString("def tickBuild : List (String × String × List Kap.C13.Tick.BStmt) := [\n")
+	for i, bd := range builds {
+		b.WriteString("  (" + leanStr(bd.typ) + ", " + leanStr(bd.param) + ", [\n    " + strings.Join(bd.body, ",\n    ") + "])")
+		if i+1 < len(builds) {
+			b.WriteString(",")
+		}
+		b.WriteString("\n")
 	}
 	b.WriteString("]\n\nend Kap.C13.Gen\n")
 	out := filepath.Join(lean, "Kap/Gen/C13Tick.lean")
